@@ -189,6 +189,19 @@ func checkC20(c CaseC20, info *Info) *Failure {
 	if err != nil {
 		return failf("decode-error", "%v", err)
 	}
+	// A wrapper that returns JSON text and takes no safe-encoding flag may spell it like Map.Json() or like
+	// Map.Json(true) - both are "the documented composition of core functions" (leniency 17); the whole text must be
+	// one of the two.
+	eitherJ := func(got []byte, m mxj.Map) bool {
+		a, _ := m.Json()
+		b, _ := m.Json(true)
+		return bytes.Equal(got, a) || bytes.Equal(got, b)
+	}
+	eitherJI := func(got []byte, m mxj.Map) bool {
+		a, _ := m.JsonIndent("", "  ")
+		b, _ := m.JsonIndent("", "  ", true)
+		return bytes.Equal(got, a) || bytes.Equal(got, b)
+	}
 	coreCast, _ := mxj.NewMapXml(doc, true)
 	// from here on the document sits in a buffer that held another document of the same length a moment ago, and the
 	// wrappers were called with that one: what a wrapper keeps between calls must be its own copy
@@ -325,7 +338,7 @@ func checkC20(c CaseC20, info *Info) *Failure {
 		if x, e := x2j.XmlNewXml(doc, pair1); (nerr1 == nil && !eqErr(e, w1xerr)) || (nerr1 != nil && e == nil) || (e == nil && !bytes.Equal(x, w1x)) {
 			return mism("x2j.XmlNewXml (one-segment new key "+pair1+")", string(x), string(w1x))
 		}
-		if j, e := x2j.XmlNewJson(doc, pair1); !eqErr(e, nerr1) || !bytes.Equal(j, w1j) {
+		if j, e := x2j.XmlNewJson(doc, pair1); !eqErr(e, nerr1) || !(bytes.Equal(j, w1j) || (nerr1 == nil && eitherJ(j, nm1))) {
 			return mism("x2j.XmlNewJson (one-segment new key "+pair1+")", string(j), string(w1j))
 		}
 	}
@@ -345,7 +358,7 @@ func checkC20(c CaseC20, info *Info) *Failure {
 		if x, e := x2j.XmlNewXml(doc, pair); (nerr == nil && !eqErr(e, wantNXerr)) || (nerr != nil && e == nil) || (e == nil && !bytes.Equal(x, wantNX)) {
 			return mism("x2j.XmlNewXml", string(x), string(wantNX))
 		}
-		if j, e := x2j.XmlNewJson(doc, pair); !eqErr(e, nerr) || !bytes.Equal(j, wantNJ) {
+		if j, e := x2j.XmlNewJson(doc, pair); !eqErr(e, nerr) || !(bytes.Equal(j, wantNJ) || (nerr == nil && eitherJ(j, nm))) {
 			return mism("x2j.XmlNewJson", string(j), string(wantNJ))
 		}
 	}
@@ -371,10 +384,10 @@ func checkC20(c CaseC20, info *Info) *Failure {
 			return mism("x2j-wrapper.ByteDocToMap", m, cm)
 		}
 		wj, werr := cm.Json()
-		if s, e := x2jw.DocToJson(string(doc), recast); !eqErr(e, werr) || (e == nil && s != string(wj)) {
+		if s, e := x2jw.DocToJson(string(doc), recast); !eqErr(e, werr) || (e == nil && !eitherJ([]byte(s), cm)) {
 			return mism("x2j-wrapper.DocToJson", s, string(wj))
 		}
-		if s, e := x2jw.ByteDocToJson(doc, recast); !eqErr(e, werr) || (e == nil && s != string(wj)) {
+		if s, e := x2jw.ByteDocToJson(doc, recast); !eqErr(e, werr) || (e == nil && !eitherJ([]byte(s), cm)) {
 			return mism("x2j-wrapper.ByteDocToJson", s, string(wj))
 		}
 		if m, e := x2jw.ToMap(bytes.NewReader(doc), recast); e != nil || !valEqual(m, map[string]interface{}(cm)) {
@@ -507,7 +520,7 @@ func checkC20(c CaseC20, info *Info) *Failure {
 			cm = coreCast
 		}
 		wji, wjerr := cm.JsonIndent("", "  ")
-		if s, e := x2jw.DocToJsonIndent(string(doc), recast); !eqErr(e, wjerr) || (e == nil && s != string(wji)) {
+		if s, e := x2jw.DocToJsonIndent(string(doc), recast); !eqErr(e, wjerr) || (e == nil && !eitherJI([]byte(s), cm)) {
 			return mism("x2j-wrapper.DocToJsonIndent", s, string(wji))
 		}
 		smi, smerr := json.MarshalIndent(map[string]interface{}(cm), "", "  ")
@@ -515,7 +528,7 @@ func checkC20(c CaseC20, info *Info) *Failure {
 			return mism("x2j-wrapper.ToJsonIndent", s, string(smi))
 		}
 		wj, wjerr2 := cm.Json()
-		if s, e := x2jw.XmlBufferToJson(bytes.NewBuffer(append([]byte(nil), doc...)), recast); !eqErr(e, wjerr2) || (e == nil && s != string(wj)) {
+		if s, e := x2jw.XmlBufferToJson(bytes.NewBuffer(append([]byte(nil), doc...)), recast); !eqErr(e, wjerr2) || (e == nil && !eitherJ([]byte(s), cm)) {
 			return mism("x2j-wrapper.XmlBufferToJson", s, string(wj))
 		}
 	}
@@ -659,7 +672,7 @@ func checkC20(c CaseC20, info *Info) *Failure {
 			wnj, _ = nm.Json()
 			wnx, wnxerr = nm.Xml()
 		}
-		if j, e := j2x.JsonNewJson(jb, vpair); !eqErr(e, nerr) || !bytes.Equal(j, wnj) {
+		if j, e := j2x.JsonNewJson(jb, vpair); !eqErr(e, nerr) || !(bytes.Equal(j, wnj) || (nerr == nil && eitherJ(j, nm))) {
 			return mism("j2x.JsonNewJson", string(j), string(wnj))
 		}
 		if x, e := j2x.JsonNewXml(jb, vpair); (nerr == nil && !eqErr(e, wnxerr)) || (e == nil && !bytes.Equal(x, wnx)) {
@@ -688,7 +701,7 @@ func checkC20(c CaseC20, info *Info) *Failure {
 			cej, _ = cem.Json()
 			cex, cexerr = cem.Xml()
 		}
-		if j, e := x2j.XmlNewJson(doc); !eqErr(e, cemerr) || !bytes.Equal(j, cej) {
+		if j, e := x2j.XmlNewJson(doc); !eqErr(e, cemerr) || !(bytes.Equal(j, cej) || (cemerr == nil && eitherJ(j, cem))) {
 			return mism("x2j.XmlNewJson (no key pairs)", string(j), string(cej))
 		}
 		if x, e := x2j.XmlNewXml(doc); (cemerr == nil && !eqErr(e, cexerr)) || (e == nil && !bytes.Equal(x, cex)) {
@@ -699,7 +712,7 @@ func checkC20(c CaseC20, info *Info) *Failure {
 		cu := mxj.Map(copyMap(c.Value))
 		_, uerr := cu.UpdateValuesForPath(map[string]interface{}{c.Key: "NEWVAL"}, vpath, sp...)
 		wantU, _ := cu.Json()
-		if j, e := j2x.JsonUpdateValsForPath(jb, map[string]interface{}{c.Key: "NEWVAL"}, vpath, sp...); !eqErr(e, uerr) || (e == nil && !bytes.Equal(j, wantU)) {
+		if j, e := j2x.JsonUpdateValsForPath(jb, map[string]interface{}{c.Key: "NEWVAL"}, vpath, sp...); !eqErr(e, uerr) || (e == nil && !eitherJ(j, cu)) {
 			return mism("j2x.JsonUpdateValsForPath", string(j), string(wantU))
 		}
 	}
